@@ -127,6 +127,31 @@ pub fn gen(seed: u64, n: usize, _tier: &str) -> Vec<Case> {
         ops.push(cmd_op(2, &[b"GET", b"probe"])); ops.push(cmd_op(2, &[b"SELECT", b"1"])); ops.push(cmd_op(2, &[b"GET", b"probe"]));
         cases.push(Case { id: format!("rewatch-{}-{}", wi, id), ops, outs: vec![] }); id += 1;
     }
+    // two connections watch the same key; the OTHER one ends its watch (UNWATCH, DISCARD, an EXEC that
+    // runs or aborts, closing the connection) before or after the key is changed: the first watcher's
+    // EXEC still aborts exactly when the key changed after its own WATCH
+    for (ei, end) in ["unwatch", "discard", "exec", "close", "rewatch-unwatch"].iter().enumerate() {
+        for order in 0..3 {
+            let mut ops = vec![conn_op(1), conn_op(2), conn_op(3), cmd_op(3, &[b"SET", b"wk", b"v"])];
+            ops.push(cmd_op(1, &[b"WATCH", b"wk"]));
+            if order == 2 { ops.push(cmd_op(3, &[b"SET", b"wk", b"changed"])); }     // changed before the other one watches
+            ops.push(cmd_op(2, &[b"WATCH", b"wk", b"kg"]));
+            if order == 1 { ops.push(cmd_op(3, &[b"APPEND", b"wk", b"x"])); }        // changed while both watch
+            match *end {
+                "unwatch" => ops.push(cmd_op(2, &[b"UNWATCH"])),
+                "discard" => { ops.push(cmd_op(2, &[b"MULTI"])); ops.push(cmd_op(2, &[b"DISCARD"])); }
+                "exec" => { ops.push(cmd_op(2, &[b"MULTI"])); ops.push(cmd_op(2, &[b"GET", b"wk"])); ops.push(cmd_op(2, &[b"EXEC"])); }
+                "close" => ops.push(close_op(2)),
+                _ => { ops.push(cmd_op(2, &[b"WATCH", b"wk"])); ops.push(cmd_op(2, &[b"UNWATCH"])); ops.push(cmd_op(2, &[b"UNWATCH"])); }
+            }
+            if order == 0 { ops.push(cmd_op(3, &[b"GET", b"wk"])); }                  // never changed: EXEC runs
+            ops.push(cmd_op(1, &[b"MULTI"])); ops.push(cmd_op(1, &[b"SET", b"probe", b"ran"])); ops.push(cmd_op(1, &[b"EXEC"]));
+            ops.push(cmd_op(3, &[b"GET", b"probe"]));
+            // and a later watch of the same key by a third connection starts from a clean slate
+            ops.push(cmd_op(3, &[b"WATCH", b"wk"])); ops.push(cmd_op(3, &[b"MULTI"])); ops.push(cmd_op(3, &[b"PING"])); ops.push(cmd_op(3, &[b"EXEC"]));
+            cases.push(Case { id: format!("twowatch-{}-{}-{}", ei, order, id), ops, outs: vec![] }); id += 1;
+        }
+    }
     // WATCH on a key that is past its deadline but not yet swept (d9330f8): the key is absent when the
     // watch begins, nothing changes afterwards, EXEC runs; re-creating it afterwards aborts
     for (wi, how) in ["expired-then-watch", "expired-watch-recreate", "expired-watch-sweep", "live-watch-then-expires"].iter().enumerate() {
